@@ -10,6 +10,7 @@ C20 driver.
 import LndModel.Prelude.Lines
 import LndModel.C20.Model
 import LndModel.C20.CacheModel
+import LndModel.C20.AnnSig
 
 open LndModel LndModel.Lines LndModel.C20
 
@@ -35,6 +36,16 @@ structure Seen where
   rv : String := ""          -- ca: real validity of bs1,bs2,ns1,ns2 under the stated keys
   vk : List Nat := []        -- cu/na: ids of the keys under which the signature really verifies
   fop : String := "-"        -- ca: the harness's ground truth outpoint txid.output of the scid
+  proof : Nat := 1           -- ae: was the edge handed in with (1) or without (0) an AuthProof
+
+/-- one announcement_signatures message as reported by the harness -/
+structure Half where
+  id : Nat
+  loc : Bool
+  src : Nat
+  scid : Nat
+  vn : List Nat              -- keys under which the node signature really verifies over the channel's announcement
+  vb : List Nat              -- same for the bitcoin signature
 
 structure ChainEnt where
   res : String
@@ -82,6 +93,17 @@ structure St where
   horizonQueries : Nat := 0
   horizonStale : Nat := 0
   resKinds : List (String × Nat) := []
+  -- announcement-signatures path
+  ps : PState := {}
+  pmd : Nat := 0
+  fc : Bool := true
+  halves : List Half := []
+  curHalf : Option Half := none
+  asOps : Nat := 0
+  asAssembled : Nat := 0
+  asRejected : Nat := 0
+  asWaiting : Nat := 0
+  storeReopens : Nat := 0
 
 def mismatch (s : St) (detail : String) : IO St := do
   if s.mismatches < 40 then
@@ -157,7 +179,7 @@ def sv (ws : List String) (k : String) : String := (kv? ws k).getD "-"
 /-- builds the message without signatures (to obtain its digest first). -/
 def parseMsg (ws : List String) (digs : List (Nat × Digest)) : Option Msg :=
   match ws.head? with
-  | some "ca" | some "ae" =>
+  | some "ca" | some "ae" | some "dcl" =>
     some (.ca { chain := n ws "chain", scid := n ws "scid", n1 := n ws "n1", n2 := n ws "n2",
                 b1 := n ws "b1", b2 := n ws "b2", feat := blob (sv ws "feat"),
                 extra := blob (sv ws "extra"),
@@ -317,7 +339,9 @@ def runMonitor (s : St) (opKind : String) (cur : Option Seen) (now : Nat) (relay
   for (c, ci) in after.chans do
     if lookup c before.chans == none then
       added := c :: added
-      let okProof := lookup c after.proofs == some 1
+      let okProof := lookup c after.proofs == some (match opKind, cur with
+        | "ae", some e => e.proof
+        | _, _ => 1)
       if opKind == "ae" then
         if !(caCands.any (fun e => aeJustifies s e c ci)) || !okProof then
           s ← monitor s "chan-changed" s!"Builder.AddEdge stored channel {c} differently from the edge it was given"
@@ -428,6 +452,30 @@ def runMonitor (s : St) (opKind : String) (cur : Option Seen) (now : Nat) (relay
         if !ok then
           s ← monitor s "zombie-mark-signed-bad-funding" s!"zombie entry {c} appeared on a {opKind} although no four-signed announcement with a missing / mismatching / spent funding output was processed"
         else s := { s with zombieAdds := s.zombieAdds + 1 }
+  -- proofs: a stored proof must verify (btcec, announcement rebuilt by the harness from the stored
+  -- record); a channel that was in the graph without a proof gets one only when halves were delivered
+  -- whose signatures really verify under the node / bitcoin keys of both slots
+  let mut announced : List Scid := []
+  let allHalves := (match s.curHalf with | some h => [h] | none => []) ++ s.halves
+  for (c, pr) in after.proofs do
+    if pr == 2 && lookup c before.proofs != some 2 then
+      s ← monitor s "stored-proof-authentic" s!"channel {c} carries a proof whose four signatures do not all verify under its stored node / bitcoin keys over the announcement rebuilt from the stored record (op={opKind})"
+    if pr != 0 && lookup c before.proofs == some 0 then
+      announced := c :: announced
+      let ok := match lookup c after.chans with
+        | some ci =>
+          -- (who delivered a half is not part of the statement: only what the signatures are)
+          let slot1 := fun (h : Half) => h.scid == c && h.vn.contains ci.n1 && h.vb.contains ci.b1
+          let slot2 := fun (h : Half) => h.scid == c && h.vn.contains ci.n2 && h.vb.contains ci.b2
+          (opKind == "as" || opKind == "blk") && lookup c before.chans == some ci &&
+          allHalves.any slot1 && allHalves.any slot2
+        | none => false
+      if !ok then
+        s ← monitor s "proof-authentic" s!"channel {c} got a proof attached although the halves delivered so far do not carry node and bitcoin signatures that verify under the stored keys of both of its slots (op={opKind})"
+      else s := { s with asAssembled := s.asAssembled + 1 }
+    if pr == 0 && (match lookup c before.proofs with | some q => q != 0 | none => false) &&
+        lookup c before.chans == lookup c after.chans then
+      s ← monitor s "chan-changed" s!"channel {c} lost its proof on a {opKind}"
   -- relays
   for r in relay do
     match r.toNat? with
@@ -450,6 +498,20 @@ def runMonitor (s : St) (opKind : String) (cur : Option Seen) (now : Nat) (relay
                   (lookup (u.scid, u.cf % 2) before.pols) u.policy
               | none => false))
           | .na x => changedNodes.any (fun kn => kn.1 == x.node && kn.2 == ⟨x.ts, some x.fields⟩)
+        -- the announcements that accompany a freshly assembled proof: the rebuilt announcement
+        -- (four really valid signatures, fields of the stored record), the stored policies and the
+        -- stored node announcements of its endpoints
+        let okAsm := (opKind == "as" || opKind == "blk") && (match e.msg with
+          | .ca a => announced.contains a.scid && a.chain == 0 && e.rv == "1111" &&
+              (match lookup a.scid after.chans with
+               | some ci => a.n1 == ci.n1 && a.n2 == ci.n2 && a.b1 == ci.b1 && a.b2 == ci.b2 &&
+                            a.feat == ci.feat && a.extra == ci.extra
+               | none => false)
+          | .cu u => announced.contains u.scid && lookup (u.scid, u.cf % 2) after.pols == some u.policy
+          | .na x => lookup x.node after.nodes == some ⟨x.ts, some x.fields⟩ &&
+              announced.any (fun c => match lookup c after.chans with
+                | some ci => ci.n1 == x.node || ci.n2 == x.node | none => false))
+        let ok := ok || okAsm
         if !ok then
           s ← monitor s "not-relayed-unless-accepted" s!"message id={id} was broadcast although it did not (validly) change the graph in this step"
         else s := { s with relays := s.relays + 1 }
@@ -498,8 +560,9 @@ def compareGraph (s : St) (g : Graph) (d : Dump) : IO St := do
     s ← mismatch s s!"graph nodes: model={g.nodes.map (fun p => (p.1, p.2.ts))} impl={d.nodes.map (fun p => (p.1, p.2.ts))}"
   if !sameMap g.zombies d.zombies then
     s ← mismatch s s!"zombie index: model={g.zombies} impl={d.zombies}"
-  if d.proofs.any (fun p => p.2 != 1) then
-    s ← mismatch s "a remotely announced channel is stored without its proof"
+  for (c, pr) in d.proofs do
+    if (pr != 0) != s.ps.hasProof c then
+      s ← mismatch s s!"channel {c}: stored proof flag impl={pr} model has-proof={s.ps.hasProof c}"
   return s
 
 def relayIds (seen : List Seen) (l : List Msg) : String :=
@@ -510,7 +573,7 @@ def replayStr (seen : List Seen) (l : List (Msg × Res)) (skipOk : Bool) : Strin
   joinOrDash (sortStr (l.map (fun mr => s!"{idOf seen mr.1}:{resName mr.2}")))
 
 def remember (s : St) (after : Dump) : St :=
-  { s with prev := after,
+  { s with prev := after, ps := s.ps.sync s.ms.g, curHalf := none,
            former := after.chans.foldl (fun f cc => upsert cc.1 cc.2 f) s.former }
 
 /-- channels the builder's zombie pruning may remove, recomputed from the implementation's own
@@ -568,6 +631,29 @@ def concCheck (s : St) (ws : List String) (kind : String) (gBefore gAfter : Grap
     s ← monitor s "lookup-answer-durable" s!"{rd} lookup of {c} overlapped with a {kind} answered {sv ws "ans"}, which is neither the durable answer before nor after the write"
   return s
 
+/-- the implementation's waiting-proof store dump `W=` -/
+def parseWaiting (digs : List (Nat × Digest)) (w : String) : List ((Scid × Bool) × AnnSigMsg) :=
+  (splitList w "|").filterMap (fun t => match t.splitOn ":" with
+    | [sc, rm, ns, bs] => some ((natD sc, rm == "1"), ⟨natD sc, parseSig digs ns, parseSig digs bs⟩)
+    | _ => none)
+
+/-- ids of what accompanies an assembled announcement on the broadcast path -/
+def assembledRelay (seen : List Seen) (g : Graph) (ca : ChanAnn) : List String :=
+  match lookup ca.scid g.chans with
+  | none => ["?"]
+  | some ci =>
+    let (pols, nodes) := assembledExtras g ca.scid ci
+    [idOf seen (.ca ca)] ++
+    pols.map (fun kp => match seen.find? (fun e => match e.msg with
+        | .cu u => u.scid == kp.1.1 && u.cf % 2 == kp.1.2 && u.policy == kp.2 | _ => false) with
+      | some e => toString e.id | none => "?") ++
+    nodes.map (fun kn => match seen.find? (fun e => match e.msg with
+        | .na x => x.node == kn.1 && x.ts == kn.2.ts && some x.fields == kn.2.fields | _ => false) with
+      | some e => toString e.id | none => "?")
+
+def aresName : ARes → String
+  | .ok => "ok" | .eNoChan => "e_nochan" | .eNotPeer => "e_notpeer" | .eInvalid => "e_invalid"
+
 def step (s : St) (line : String) : IO St := do
   let s := { s with lines := s.lines + 1 }
   let ws := words line
@@ -588,7 +674,8 @@ def step (s : St) (line : String) : IO St := do
     let init : State := { g := { nodes := [(self, ⟨0, none⟩)] }, height := n rest "height" }
     let s := { s with cfg := cfg, caseId := id, kind := sv rest "kind", ms := init,
                       prev := { nodes := [(self, ⟨0, none⟩)] }, seen := [], chainTab := [],
-                      cases := s.cases + 1, strict := n rest "strict" == 1, former := [] }
+                      cases := s.cases + 1, strict := n rest "strict" == 1, former := [],
+                      ps := {}, pmd := 0, fc := true, halves := [], curHalf := none }
     if !(s.sampled.contains s.kind) && s.sampled.length < 6 then
       return { s with sampled := s.kind :: s.sampled }
     return s
@@ -610,6 +697,48 @@ def step (s : St) (line : String) : IO St := do
       else .noTx true
     return { s with chainTab := upsert scid ent s.chainTab,
                     ms := { s.ms with chain := upsert scid cr s.ms.chain } }
+  | "asc" :: rest => return { s with pmd := n rest "pmd", fc := n rest "fc" == 1 }
+  | "rst" :: _ =>
+    let after := parseDump ws
+    let mut s := { s with ps := s.ps.restart, ops := s.ops + 1, storeReopens := s.storeReopens + 1 }
+    if !sameMap s.ps.waiting (parseWaiting s.digs (sv ws "W")) then
+      s ← mismatch s s!"rst: waiting-proof store after re-open impl={sv ws "W"} model has {s.ps.waiting.map (·.1)}"
+    s ← compareGraph s s.ms.g after
+    s ← runMonitor s "rst" none 0 [] [] [] after
+    return remember s after
+  | "as" :: rest =>
+    let after := parseDump ws
+    let a : AnnSigMsg := ⟨n rest "scid", parseSig s.digs (sv rest "ns"), parseSig s.digs (sv rest "bs")⟩
+    let loc := n rest "loc" == 1
+    let src := n rest "src"
+    let hf : Half := ⟨n rest "id", loc, src, a.scid, (splitList (sv rest "vn") ",").map natD,
+      (splitList (sv rest "vb") ",").map natD⟩
+    let relay := splitList (sv ws "relay") ","
+    let out := stepAnnSig s.pmd s.fc s.ms s.ps (!loc) src a
+    let mut s := { s with ps := out.ps, ops := s.ops + 1, asOps := s.asOps + 1, curHalf := some hf }
+    -- the symbolic signature terms against the real verification of the two signatures
+    match lookup a.scid s.ms.g.chans with
+    | some ci =>
+      let dg : Digest := .ca 0 a.scid ci.n1 ci.n2 ci.b1 ci.b2 ci.feat ci.extra
+      for k in [ci.n1, ci.n2, ci.b1, ci.b2] do
+        if (a.ns == Sig.mk k dg) != hf.vn.contains k || (a.bs == Sig.mk k dg) != hf.vb.contains k then
+          s ← mismatch s s!"as id={hf.id}: symbolic signature term disagrees with real ECDSA verification under key {k}"
+    | none => pure ()
+    if aresName out.res != sv ws "res" then
+      s ← mismatch s s!"as id={hf.id}: result model={aresName out.res} impl={sv ws "res"}"
+    let mRelay := match out.relay with
+      | some ca => joinOrDash (sortStr (assembledRelay s.seen s.ms.g ca))
+      | none => "-"
+    if mRelay != joinOrDash (sortStr relay) then
+      s ← mismatch s s!"as id={hf.id}: relay model={mRelay} impl={sv ws "relay"}"
+    if !sameMap out.ps.waiting (parseWaiting s.digs (sv ws "W")) then
+      s ← mismatch s s!"as id={hf.id}: waiting-proof store impl={sv ws "W"} model has {out.ps.waiting.map (·.1)}"
+    s ← compareGraph s s.ms.g after
+    s ← runMonitor s "as" none (n rest "now") relay (splitList (sv ws "wf") ",") (splitList (sv ws "wfs") ",") after
+    if out.res != .ok then s := { s with asRejected := s.asRejected + 1 }
+    if out.relay.isNone && out.res == .ok then s := { s with asWaiting := s.asWaiting + 1 }
+    let s2 := remember s after
+    return { s2 with halves := hf :: s.halves, resKinds := bump s.resKinds ("as_" ++ sv ws "res") }
   | "zmb" :: rest =>
     let scid := n rest "scid"
     let after := parseDump ws
@@ -691,8 +820,12 @@ def step (s : St) (line : String) : IO St := do
     let after := parseDump ws
     let relay := splitList (sv ws "relay") ","
     let acc := newBlock s.cfg now s.ms (n rest "h")
-    let mut s := { s with ms := acc.st, ops := s.ops + 1 }
-    let mRelay := relayIds s.seen acc.relay
+    let (ps1, outs) := blockAnnSigs s.pmd s.fc acc.st (s.ps.sync acc.st.g)
+    let mut s := { s with ms := acc.st, ops := s.ops + 1, ps := ps1 }
+    let asmIds := (outs.filterMap (·.2)).flatMap (assembledRelay s.seen acc.st.g)
+    let mRelay := joinOrDash (sortStr (((acc.relay.filter (relayAllowed acc.st.g ps1)).map (idOf s.seen)) ++ asmIds))
+    if (kv? ws "W").isSome && !sameMap ps1.waiting (parseWaiting s.digs (sv ws "W")) then
+      s ← mismatch s s!"blk: waiting-proof store impl={sv ws "W"} model has {ps1.waiting.map (·.1)}"
     if mRelay != joinOrDash (sortStr relay) then
       s ← mismatch s s!"blk relay: model={mRelay} impl={sv ws "relay"}"
     s ← compareGraph s acc.st.g after
@@ -700,7 +833,7 @@ def step (s : St) (line : String) : IO St := do
     let s2 := remember s after
     return { s2 with replays := s.replays + acc.replayed.length }
   | kind :: rest =>
-    if kind != "ca" && kind != "cu" && kind != "na" && kind != "au" && kind != "ue" && kind != "ae" then
+    if kind != "ca" && kind != "cu" && kind != "na" && kind != "au" && kind != "ue" && kind != "ae" && kind != "dcl" then
       if ws.isEmpty then return s else return ← mismatch s s!"unparsed line: {line.take 60}"
     let some m0 := parseMsg ws s.digs | mismatch s "bad message"
     let did := n rest "dig"
@@ -727,7 +860,11 @@ def step (s : St) (line : String) : IO St := do
     let id := n rest "id"
     let peer := n rest "peer"
     let now := n rest "now"
-    let cur : Seen := ⟨id, m, sv rest "rv", (splitList (sv rest "vk") ",").map natD, sv rest "fop"⟩
+    let cur : Seen := ⟨id, m, sv rest "rv", (splitList (sv rest "vk") ",").map natD, sv rest "fop",
+      (kvNat? rest "proof").getD 1⟩
+    if kind == "dcl" then
+      -- declaration only: the announcement a proof assembly is expected to rebuild
+      return { s with ops := s.ops - 1, seen := cur :: s.seen }
     let res := sv ws "res"
     let relay := splitList (sv ws "relay") ","
     let after := parseDump ws
@@ -759,6 +896,15 @@ def step (s : St) (line : String) : IO St := do
         let (r, acc) := submit s.cfg now s.ms peer m
         (resName r, acc)
     s := { s with ms := acc.st }
+    -- channels handed in without a proof, and the relay rules that depend on proofs
+    match m with
+    | .ca a =>
+      if kind == "ae" && rname == "ok" && cur.proof == 0 then
+        s := { s with ps := { s.ps with noProof := a.scid :: s.ps.noProof } }
+    | _ => pure ()
+    s := { s with ps := s.ps.sync acc.st.g }
+    let acc : Acc := if direct then acc else
+      { acc with relay := acc.relay.filter (relayAllowed acc.st.g s.ps) }
     if rname != res then
       s ← mismatch s s!"{kind} id={id}: result model={rname} impl={res}"
     let mRelay := relayIds seenAll acc.relay
@@ -785,7 +931,7 @@ def main : IO Unit := do
   IO.println s!"STAT lines={s.lines}"
   IO.println s!"STAT cases={s.cases}"
   IO.println s!"STAT evaluations={s.ops}"
-  IO.println s!"STAT nontrivial={s.chanAdds + s.polChanges + s.nodeChanges + s.rejectsInvalid + s.zombieLives + s.concBarriers + s.zombiePruned + s.directAdds}"
+  IO.println s!"STAT nontrivial={s.chanAdds + s.polChanges + s.nodeChanges + s.rejectsInvalid + s.zombieLives + s.concBarriers + s.zombiePruned + s.directAdds + s.asAssembled + s.asRejected}"
   IO.println s!"STAT channels_added={s.chanAdds}"
   IO.println s!"STAT policies_changed={s.polChanges}"
   IO.println s!"STAT nodes_changed={s.nodeChanges}"
@@ -803,6 +949,11 @@ def main : IO Unit := do
   IO.println s!"STAT zombie_pruned_channels={s.zombiePruned}"
   IO.println s!"STAT direct_edge_adds={s.directAdds}"
   IO.println s!"STAT horizon_queries={s.horizonQueries}"
+  IO.println s!"STAT annsig_halves={s.asOps}"
+  IO.println s!"STAT annsig_proofs_assembled={s.asAssembled}"
+  IO.println s!"STAT annsig_halves_rejected={s.asRejected}"
+  IO.println s!"STAT annsig_halves_waiting={s.asWaiting}"
+  IO.println s!"STAT annsig_store_reopens={s.storeReopens}"
   IO.println s!"STAT horizon_stale_answers_observed={s.horizonStale}"
   for (k, v) in s.resKinds do
     IO.println s!"STAT res_{k}={v}"
